@@ -165,20 +165,14 @@ func c14Decode(c *engine.Ctx) {
 		})
 		c.Check(okDec, "C14.R3", "DecodeRSAPad/rsa-ok", r.Pos(), "data may be returned only when rsaDecrypt reported success (no overflow)")
 		ret := engine.RetVal(r, 0)
-		var hashWrites []ssa.CallInstruction
-		for _, call := range engine.Calls(fn) {
-			cc := call.Common()
-			if cc.IsInvoke() && cc.Method.Name() == "Write" && isCallTo(cc.Value, "crypto/sha256.New") != nil {
-				hashWrites = append(hashWrites, call)
-			}
-		}
 		okEq := engine.GuardedBy(r, func(k engine.Cmp) bool {
 			if k.Op != token.EQL || k.Via == nil {
 				return false
 			}
 			for _, pair := range [][2]ssa.Value{{k.X, k.Y}, {k.Y, k.X}} {
-				sum := engine.CallOf(pair[1])
-				if sum == nil || !sum.Common().IsInvoke() || sum.Common().Method.Name() != "Sum" {
+				// one side: SHA256 over (temp_key, returned buffer), computed in place or by a helper
+				inputs, at, isSum := sha256Concat(pair[1])
+				if !isSum || len(inputs) != 2 {
 					continue
 				}
 				// other side: the tail [192:] of the decrypted buffer the returned data is the head of
@@ -192,26 +186,19 @@ func c14Decode(c *engine.Ctx) {
 				if lo != 192 || hi != 192 || hs.High != nil || rs.Low != nil {
 					continue
 				}
-				// hash inputs: temp_key (xor output keyed AES) then the returned buffer, written after the reversal
-				if len(hashWrites) != 2 || hashWrites[0].Common().Value != sum.Common().Value {
-					continue
-				}
-				if hashWrites[1].Common().Args[0] != ret {
-					continue
-				}
-				// Sum must append to nil: Sum(hash[:0]) would write the digest over the very bytes it is compared with
-				if len(sum.Common().Args) != 1 || !engine.IsNil(sum.Common().Args[0]) {
+				// hash inputs: temp_key (xor output keyed AES) then the returned buffer, hashed after the reversal
+				if inputs[1] != ret {
 					continue
 				}
 				revOK := false
 				for _, rc := range engine.CallsTo(fn, false, "crypto.reverseBytes") {
-					if rc.Common().Args[0] == ret && engine.Dominates(rc, hashWrites[1]) {
+					if rc.Common().Args[0] == ret && engine.Dominates(rc, at) {
 						revOK = true
 					}
 				}
 				keyOK := false
 				for _, nc := range engine.CallsTo(fn, false, "crypto/aes.NewCipher") {
-					if nc.Common().Args[0] == hashWrites[0].Common().Args[0] {
+					if nc.Common().Args[0] == inputs[0] {
 						keyOK = true
 					}
 				}
@@ -224,17 +211,93 @@ func c14Decode(c *engine.Ctx) {
 		c.Check(okEq, "C14.R3", "DecodeRSAPad/hash-check", r.Pos(), "data may be returned only when the trailing 32 bytes equal SHA256(temp_key ‖ data_with_padding) computed after undoing the reversal")
 		// temp_key = temp_key_xor XOR SHA256(aes_encrypted), with the 32/rest split of the decrypted block
 		okXor := false
-		for _, x := range engine.CallsTo(fn, false, "github.com/go-faster/xor.Bytes") {
-			a := x.Common().Args
-			sum := engine.FindCallBack(a[2], "crypto/sha256.Sum256")
-			d1 := engine.Describe(a[1])
-			if len(sum) == 1 && strings.HasSuffix(d1, "[:32]") && strings.HasSuffix(engine.Describe(sum[0].Common().Args[0]), "[32:]") {
-				okXor = true
+		for _, f := range withHelpers(fn, 1) {
+			for _, x := range engine.CallsTo(f, false, "github.com/go-faster/xor.Bytes") {
+				a := x.Common().Args
+				sum := engine.FindCallBack(a[2], "crypto/sha256.Sum256")
+				if len(sum) != 1 {
+					continue
+				}
+				// in a helper the two operands are parameters: judge the arguments of its call(s)
+				sites := []ssa.CallInstruction{nil}
+				if f != fn {
+					sites = staticCallsOf(fn, f)
+				}
+				all := len(sites) > 0
+				for _, site := range sites {
+					x1, s1 := a[1], sum[0].Common().Args[0]
+					if site != nil {
+						x1, s1 = argOfParam(x1, site), argOfParam(s1, site)
+					}
+					if x1 == nil || s1 == nil || !strings.HasSuffix(engine.Describe(x1), "[:32]") || !strings.HasSuffix(engine.Describe(s1), "[32:]") {
+						all = false
+					}
+				}
+				if all {
+					okXor = true
+				}
 			}
 		}
 		c.Check(okXor, "C14.R3", "DecodeRSAPad/temp-key", r.Pos(), "temp_key must be recovered as block[:32] XOR SHA256(block[32:])")
 	}
 	c.Floor("C14.R3", 1, n)
+}
+
+// sha256Concat: v is SHA256 over the concatenation of inputs — h := sha256.New();
+// h.Write(in0); h.Write(in1); …; h.Sum(nil) in the function of v, or the result
+// of a same-package helper that does exactly that with its parameters (inputs are
+// then the call's arguments). at is where the last input is consumed in v's
+// function (the last Write, or the helper call). Sum must append to nil:
+// Sum(buf[:0]) would write the digest over bytes it may be compared with.
+func sha256Concat(v ssa.Value) (inputs []ssa.Value, at ssa.Instruction, ok bool) {
+	sum := engine.CallOf(v)
+	if sum == nil {
+		return nil, nil, false
+	}
+	if sum.Common().IsInvoke() && sum.Common().Method.Name() == "Sum" {
+		if len(sum.Common().Args) != 1 || !engine.IsNil(sum.Common().Args[0]) || isCallTo(sum.Common().Value, "crypto/sha256.New") == nil {
+			return nil, nil, false
+		}
+		fn := sum.Parent()
+		var writes []ssa.CallInstruction
+		for _, call := range engine.Calls(fn) {
+			cc := call.Common()
+			if cc.IsInvoke() && cc.Method.Name() == "Write" && cc.Value == sum.Common().Value {
+				writes = append(writes, call)
+			}
+		}
+		// the writes form a chain in dominance order and all precede the Sum
+		for i, w := range writes {
+			if !engine.Dominates(w, sum) || engine.InCycle(w) || (i > 0 && !engine.Dominates(writes[i-1], w)) {
+				return nil, nil, false
+			}
+			inputs = append(inputs, w.Common().Args[0])
+		}
+		if len(writes) == 0 {
+			return nil, nil, false
+		}
+		return inputs, writes[len(writes)-1], true
+	}
+	h := sum.Common().StaticCallee()
+	if h == nil || len(h.Blocks) == 0 || sum.Parent() == nil || h.Pkg != sum.Parent().Pkg {
+		return nil, nil, false
+	}
+	rets := engine.Returns(h)
+	if len(rets) != 1 || len(rets[0].Results) != 1 {
+		return nil, nil, false
+	}
+	inner, _, okIn := sha256Concat(rets[0].Results[0])
+	if !okIn {
+		return nil, nil, false
+	}
+	for _, in := range inner {
+		a := argOfParam(in, sum)
+		if a == nil {
+			return nil, nil, false
+		}
+		inputs = append(inputs, a)
+	}
+	return inputs, sum, true
 }
 
 func c14Hashed(c *engine.Ctx) {
